@@ -42,6 +42,10 @@ type WorldSpec struct {
 	EdenPerYear  uint64            `json:"eden_per_year"`      // >0: time-based inflation (LM rewards) + eden enabled on all pools
 	RewardDenoms []string          `json:"reward_denoms"`      // supported external-incentive denoms
 	GovMsgs      []string          `json:"gov_msgs,omitempty"` // interface-JSON msgs applied with gov authority at the end of setup
+	// imbalanced start: prices fed AFTER the pools were created (an oracle pool created 50:50 by value is then
+	// far from its target weights) and a donation of every pool asset to each oracle pool's rebalance treasury
+	SkewPrices   map[string]string `json:"skew_prices,omitempty"`
+	FundTreasury string            `json:"fund_treasury,omitempty"`
 }
 
 func DefaultWorldSpec() WorldSpec {
@@ -107,6 +111,28 @@ func BuildWorldOn(spec WorldSpec, diskDir string) (*World, error) {
 				Pool: lptypes.AddPool{AmmPoolId: resp.PoolID, LeverageMax: sdkmath.LegacyNewDec(10)}})
 			if err != nil {
 				return nil, fmt.Errorf("leveragelp add pool %d: %w", i, err)
+			}
+		}
+	}
+	for _, disp := range sortedKeys(spec.SkewPrices) {
+		app.OracleKeeper.SetPrice(ctx, oracletypes.Price{
+			Asset: disp, Price: sdkmath.LegacyMustNewDecFromStr(spec.SkewPrices[disp]), Source: "elys",
+			Provider: w.Feeder.Addr.String(), Timestamp: uint64(ctx.BlockTime().Unix()) + 1, BlockHeight: uint64(ctx.BlockHeight()),
+		})
+	}
+	if spec.FundTreasury != "" {
+		amt, ok := sdkmath.NewIntFromString(spec.FundTreasury)
+		if !ok {
+			return nil, fmt.Errorf("bad fund_treasury")
+		}
+		for _, p := range app.AmmKeeper.GetAllPool(ctx) {
+			if !p.PoolParams.UseOracle {
+				continue
+			}
+			for _, a := range p.PoolAssets {
+				if err := app.BankKeeper.SendCoins(ctx, w.Admin.Addr, sdk.MustAccAddressFromBech32(p.RebalanceTreasury), sdk.NewCoins(sdk.NewCoin(a.Token.Denom, amt))); err != nil {
+					return nil, fmt.Errorf("fund treasury: %w", err)
+				}
 			}
 		}
 	}
